@@ -1151,8 +1151,26 @@ func ruleCaseFold(c *Ctx, rule string) {
 			}
 			return "other"
 		case *ssa.Phi:
+			// in the case-insensitive branch, what arrives over an edge taken only when caseSensitive is true
+			// is not what is read
 			res := "folded"
-			for _, e := range x.Edges {
+			for i, e := range x.Edges {
+				pred := x.Block().Preds[i]
+				if cased(pred) {
+					continue
+				}
+				if ifi, ok := pred.Instrs[len(pred.Instrs)-1].(*ssa.If); ok && len(pred.Succs) == 2 && pred.Succs[0] != pred.Succs[1] {
+					edge := 0
+					if pred.Succs[1] == x.Block() {
+						edge = 1
+					}
+					if ifi.Cond == ssa.Value(csParam) && edge == 0 {
+						continue
+					}
+					if u, ok := ifi.Cond.(*ssa.UnOp); ok && u.Op == token.NOT && u.X == ssa.Value(csParam) && edge == 1 {
+						continue
+					}
+				}
 				if o := origin(e, at, depth+1); o != "folded" {
 					res = o
 				}
@@ -1200,5 +1218,129 @@ func ruleCaseFold(c *Ctx, rule string) {
 	}
 	if n == 0 {
 		c.und(rule, "alphabet.newAlphabet/uncased-table-fill", fn.Pos(), "no table-filling loop found in the case-insensitive branch")
+	}
+	// the non-ASCII test looks at the definition as given: case folding maps some non-ASCII letters (the Kelvin
+	// sign, the long s) to ASCII ones, so a definition folded first slips past the rejection
+	nAscii := 0
+	for _, b := range fn.Blocks {
+		for _, ins := range b.Instrs {
+			bo, ok := ins.(*ssa.BinOp)
+			if !ok {
+				continue
+			}
+			k, isK := constIntVal(bo.Y)
+			if !isK || k != 127 || (bo.Op != token.GTR && bo.Op != token.GEQ && bo.Op != token.LEQ && bo.Op != token.LSS) {
+				continue
+			}
+			// the letter compared: from a range over a string, or a byte of it
+			var str ssa.Value
+			for v, d := bo.X, 0; d < 5 && str == nil; d++ {
+				switch x := v.(type) {
+				case *ssa.Extract:
+					if nx, ok := x.Tuple.(*ssa.Next); ok {
+						if rng, ok := nx.Iter.(*ssa.Range); ok {
+							str = rng.X
+						}
+					}
+					d = 5
+				case *ssa.Lookup:
+					if bt, ok := x.X.Type().Underlying().(*types.Basic); ok && bt.Kind() == types.String {
+						str = x.X
+					}
+					d = 5
+				case *ssa.Index:
+					if bt, ok := x.X.Type().Underlying().(*types.Basic); ok && bt.Kind() == types.String {
+						str = x.X
+					}
+					d = 5
+				case *ssa.Convert:
+					v = x.X
+				case *ssa.ChangeType:
+					v = x.X
+				default:
+					d = 5
+				}
+			}
+			if str == nil {
+				continue
+			}
+			nAscii++
+			key := "alphabet.newAlphabet/ascii-test-on-the-definition-as-given"
+			raw := func(v ssa.Value) bool {
+				if v == ssa.Value(letters) {
+					return true
+				}
+				if phi, ok := v.(*ssa.Phi); ok {
+					for _, e := range phi.Edges {
+						if e != ssa.Value(letters) {
+							return false
+						}
+					}
+					return true
+				}
+				return false
+			}
+			if raw(str) {
+				c.ok(rule, key, bo.Pos(), "the non-ASCII test reads the definition parameter itself")
+			} else {
+				c.bad(rule, key, bo.Pos(), "the non-ASCII test is applied to a string that may already have been case-folded: folding maps some non-ASCII letters to ASCII ones (the Kelvin sign to k), so such a definition is accepted although the alphabet is meant to be ASCII only")
+			}
+		}
+	}
+	// or the test is a predicate handed to strings.IndexFunc and its relatives
+	for _, b := range fn.Blocks {
+		for _, ins := range b.Instrs {
+			call, ok := ins.(*ssa.Call)
+			if !ok || len(call.Call.Args) != 2 {
+				continue
+			}
+			g := call.Call.StaticCallee()
+			if g == nil || g.Pkg == nil || g.Pkg.Pkg.Path() != "strings" {
+				continue
+			}
+			var pred *ssa.Function
+			switch x := call.Call.Args[1].(type) {
+			case *ssa.Function:
+				pred = x
+			case *ssa.MakeClosure:
+				pred, _ = x.Fn.(*ssa.Function)
+			}
+			if pred == nil {
+				continue
+			}
+			tests := false
+			for _, pb := range pred.Blocks {
+				for _, pi := range pb.Instrs {
+					if bo, ok := pi.(*ssa.BinOp); ok {
+						if k, isK := constIntVal(bo.Y); isK && k == 127 {
+							tests = true
+						}
+					}
+				}
+			}
+			if !tests {
+				continue
+			}
+			nAscii++
+			key := "alphabet.newAlphabet/ascii-test-on-the-definition-as-given"
+			arg := call.Call.Args[0]
+			isRaw := arg == ssa.Value(letters)
+			if phi, ok := arg.(*ssa.Phi); ok {
+				isRaw = true
+				for _, e := range phi.Edges {
+					if e != ssa.Value(letters) {
+						isRaw = false
+					}
+				}
+			}
+			if isRaw {
+				c.ok(rule, key, call.Pos(), "the non-ASCII test is applied to the definition parameter itself")
+			} else {
+				c.bad(rule, key, call.Pos(), "the non-ASCII test is applied to a string that may already have been case-folded: folding maps some non-ASCII letters to ASCII ones (the Kelvin sign to k), so such a definition is accepted although the alphabet is meant to be ASCII only")
+			}
+		}
+	}
+	if nAscii == 0 {
+		c.und(rule, "alphabet.newAlphabet/ascii-test-on-the-definition-as-given", fn.Pos(), "no comparison of the definition's letters with unicode.MaxASCII found")
 	}
 }
